@@ -99,4 +99,50 @@ fn replay_damaged_log() {
             }
         }
     }
+    // EXHAUSTIVE single-byte sweep of one record (every checksum and payload byte, every other value): a reader whose
+    // checksum comparison is weaker than a full comparison (a fold, a prefix) accepts some of them
+    {
+        let (n_ops, n) = (3usize, 5u64);
+        let base = tempfile::tempdir().unwrap();
+        let kv = build(base.path(), n_ops, n);
+        let wal = base.path().join("0_index.wal");
+        let data = std::fs::read(&wal).unwrap();
+        // locate the last record
+        let mut off = 0usize;
+        let mut last = (0usize, 0usize);
+        while off + 44 <= data.len() {
+            let ver = u64::from_le_bytes(data[off..off + 8].try_into().unwrap());
+            if ver == 0 { break; }
+            let len = u32::from_le_bytes(data[off + 40..off + 44].try_into().unwrap()) as usize;
+            last = (off, len);
+            off += 44 + len;
+        }
+        let (roff, rlen) = last;
+        let work = tempfile::tempdir().unwrap();
+        copy_dir(base.path(), work.path());
+        let mut accepted = Vec::new();
+        let positions: Vec<usize> = (roff + 8..roff + 40).chain(roff + 44..roff + 44 + rlen).collect();
+        for pos in positions {
+            for nv in 0..=255u8 {
+                if nv == data[pos] { continue; }
+                let mut d = data.clone();
+                d[pos] = nv;
+                std::fs::write(work.path().join("0_index.wal"), &d).unwrap();
+                for f in ["index", "index.tmp"] { let _ = std::fs::remove_file(work.path().join(f)); }
+                let cfg = Config { num_ops_per_wal: NonZeroU64::new(n).unwrap(), scan_orphans_on_startup: false, ..Default::default() };
+                if let Ok(cas) = Cas::<String>::open(work.path(), cfg) {
+                    // accepted: only an exact prefix WITHOUT the damaged (last) record is legitimate
+                    let (k, v) = &kv[n_ops - 1];
+                    let got = cas.get(k).ok().flatten();
+                    let n_keys = cas.read_index_state().len();
+                    if got.is_some() || n_keys != n_ops - 1 {
+                        accepted.push(format!("byte {} -> {:#04x} ({} keys, last key {})", pos - roff, nv, n_keys,
+                                              if got.as_deref() == Some(&v[..]) { "unchanged" } else if got.is_some() { "altered" } else { "absent" }));
+                    }
+                }
+            }
+        }
+        assert!(accepted.is_empty(), "{} single-byte damages of the last record were accepted by the reader, e.g. {}", accepted.len(), accepted[0]);
+    }
 }
+
